@@ -52,10 +52,13 @@ Definition cond_head (x : string) : string :=
   end.
 Definition class_D31 (long fresh : list string) : bool :=
   let diff := filter (fun x => negb (mem_str x fresh)) long ++ filter (fun x => negb (mem_str x long)) fresh in
-  negb (match diff with [] => true | _ => false end) &&
-  forallb (fun x => existsb (fun part => has_prefix "ResolvedRefs=" part) (split_on "|"%char x) &&
-                    mem_str (cond_head x ^^ "Accepted=False:GatewayIgnored") fresh &&
-                    mem_str (cond_head x ^^ "Accepted=False:GatewayIgnored") long) diff.
+  let ignored_parent x := existsb (fun part => has_prefix "ResolvedRefs=" part) (split_on "|"%char x) &&
+                          mem_str (cond_head x ^^ "Accepted=False:GatewayIgnored") fresh &&
+                          mem_str (cond_head x ^^ "Accepted=False:GatewayIgnored") long in
+  (* ... and, as a consequence of the same untracked Service, the entry of a BackendTLSPolicy that targets it (the policy counts as
+     referenced only once the backend resolves) *)
+  existsb ignored_parent diff &&
+  forallb (fun x => ignored_parent x || has_prefix "BackendTLSPolicy/" x) diff.
 
 Definition complaints_main (c : case) : list (nat * string) :=
   let cfg_ok := files_equal (k_long_files c) (k_long_matches c) (k_fresh_files c) (k_fresh_matches c) in
